@@ -240,6 +240,25 @@ class Compiler:
             self.loop_stack.pop()
         self._emit(OpCode.THROW)  # Rethrow the exception
 
+    def _emit_store_variable(self, name: str, declare: bool = False) -> None:
+        """Store the top of the stack into a variable, resolving it like any other
+        reference: captured local (cell), local, captured outer variable, global."""
+        if declare and self._in_function:
+            self._add_local(name)
+        cell_slot = self._get_cell_var(name)
+        if cell_slot is not None:
+            self._emit(OpCode.STORE_CELL, cell_slot)
+            return
+        slot = self._get_local(name)
+        if slot is not None and self._in_function:
+            self._emit(OpCode.STORE_LOCAL, slot)
+            return
+        closure_slot = self._get_free_var(name) if self._in_function else None
+        if closure_slot is not None:
+            self._emit(OpCode.STORE_CLOSURE, closure_slot)
+            return
+        self._emit(OpCode.STORE_NAME, self._add_name(name))
+
     def _context_index(self, ctx: LoopContext) -> int:
         """Position of a context on the stack (by identity: contexts compare equal
         field by field)."""
@@ -598,23 +617,10 @@ class Compiler:
             # Store key in variable
             if isinstance(node.left, VariableDeclaration):
                 decl = node.left.declarations[0]
-                name = decl.id.name
-                if self._in_function:
-                    self._add_local(name)
-                    slot = self._get_local(name)
-                    self._emit(OpCode.STORE_LOCAL, slot)
-                else:
-                    idx = self._add_name(name)
-                    self._emit(OpCode.STORE_NAME, idx)
+                self._emit_store_variable(decl.id.name, declare=True)
                 self._emit(OpCode.POP)
             elif isinstance(node.left, Identifier):
-                name = node.left.name
-                slot = self._get_local(name)
-                if slot is not None:
-                    self._emit(OpCode.STORE_LOCAL, slot)
-                else:
-                    idx = self._add_name(name)
-                    self._emit(OpCode.STORE_NAME, idx)
+                self._emit_store_variable(node.left.name)
                 self._emit(OpCode.POP)
             elif isinstance(node.left, MemberExpression):
                 # for (obj.prop in ...) or for (obj[key] in ...)
@@ -668,23 +674,10 @@ class Compiler:
             # Store value in variable
             if isinstance(node.left, VariableDeclaration):
                 decl = node.left.declarations[0]
-                name = decl.id.name
-                if self._in_function:
-                    self._add_local(name)
-                    slot = self._get_local(name)
-                    self._emit(OpCode.STORE_LOCAL, slot)
-                else:
-                    idx = self._add_name(name)
-                    self._emit(OpCode.STORE_NAME, idx)
+                self._emit_store_variable(decl.id.name, declare=True)
                 self._emit(OpCode.POP)
             elif isinstance(node.left, Identifier):
-                name = node.left.name
-                slot = self._get_local(name)
-                if slot is not None:
-                    self._emit(OpCode.STORE_LOCAL, slot)
-                else:
-                    idx = self._add_name(name)
-                    self._emit(OpCode.STORE_NAME, idx)
+                self._emit_store_variable(node.left.name)
                 self._emit(OpCode.POP)
             else:
                 raise JSSyntaxError(
@@ -805,10 +798,7 @@ class Compiler:
                 # Has catch block
                 self._emit(OpCode.CATCH)
                 # Store exception in catch variable
-                name = node.handler.param.name
-                self._add_local(name)
-                slot = self._get_local(name)
-                self._emit(OpCode.STORE_LOCAL, slot)
+                self._emit_store_variable(node.handler.param.name, declare=True)
                 self._emit(OpCode.POP)
                 if node.finalizer:
                     # An exception thrown by the catch block still runs finally
